@@ -61,7 +61,7 @@ func init() {
 	register("C08", func(env *Env) error {
 		env.Header = "From Coq Require Import List String.\nImport ListNotations.\nOpen Scope string_scope.\nFrom Lime Require Import Base.Res Hs.Types Hs.Client Hs.ClientBuilder Corr.C08."
 		env.ShardSize = 250
-		env.Rule = "every server script up to the depth bound over a 23-letter alphabet (every session state incl. regressions, id variants, offers with normal/empty/unknown options, matching/different/empty/unknown confirmations, scheme lists, round-trip data, data envelope, undecodable bytes, EOF), extended breadth-first while the client is still waiting, x client configurations (selector and authenticator choices incl. the library defaults and configurations made by sequences of calls on a real ClientBuilder, with/without TLS configuration, TLS handshake succeeding or not), against the real ClientChannel.EstablishSession over an injected in-memory TCP connection. Non-trivial: the client sent at least two envelopes. Distinct by (configuration, script)."
+		env.Rule = "every server script up to the depth bound over a 23-letter alphabet (every session state incl. regressions, id variants, offers with normal/empty/unknown options, matching/different/empty/unknown confirmations, scheme lists, round-trip data, data envelope, undecodable bytes, EOF), extended breadth-first while the client is still waiting (third level sampled 1 in 3 in the quick tier, fourth level 1 in 2 in the thorough tier), x client configurations (selector and authenticator choices incl. the library defaults and configurations made by sequences of calls on a real ClientBuilder, with/without TLS configuration, TLS handshake succeeding or not), against the real ClientChannel.EstablishSession over an injected in-memory TCP connection. Non-trivial: the client sent at least two envelopes. Distinct by (configuration, script)."
 		var rc CCase
 		if ok, err := env.ReplayDesc(&rc); err != nil {
 			return err
@@ -75,7 +75,7 @@ func init() {
 			env.Add(c.Coq(), c)
 			return nil
 		}
-		clientRuns, clientRunsMax := 0, env.Pick(60, 1500)
+		clientRuns, clientRunsMax := 0, env.Pick(60, 600)
 		depth := env.Pick(3, 4)
 		confs := append(append([]*CConf(nil), clientConfs[:env.Pick(3, len(clientConfs))]...), builtClientConfs[1:env.Pick(3, len(builtClientConfs))]...)
 		for _, conf := range confs {
@@ -86,6 +86,9 @@ func init() {
 					for ai, a := range clientAlphabet {
 						if !env.Thorough() && d == 3 && (ai+len(prefix[1].Kind)+len(next))%3 != 0 {
 							continue // the third level is sampled in the quick tier
+						}
+						if env.Thorough() && d == 4 && (ai+len(prefix[1].Kind)+len(prefix[2].Kind)+len(next))%2 != 0 {
+							continue // ... and the fourth level in the thorough tier (every other extension)
 						}
 						script := append(append([]SIn(nil), prefix...), a)
 						obs := runClientScript(conf, script)
